@@ -1,7 +1,7 @@
 """C04 -- Exceptions keep their class; glom failures are GlomErrors; default is selective."""
 from typing import List
 
-from glom import (glom, T, S, Path, Coalesce, Val, Spec, Invoke, Call, Check, Match, M, Fold, Assign, Delete, Iter,
+from glom import (glom, T, S, Path, Coalesce, Val, Spec, Invoke, Call, Check, Match, M, Fold, Sum, Flatten, Assign, Delete, Iter,
                   GlomError, PathAccessError, CoalesceError, UnregisteredTarget, BadSpec, CheckError, MatchError,
                   TypeMatchError, PathAssignError)
 from glom.mutation import PathDeleteError
@@ -125,6 +125,8 @@ def fault_pair(e1: int, e2: int, site1: int, site2: int, kwi: int, a: int) -> bo
     kw = dict(KW[kwi])
     if 'default' in kw:
         kw['default'] = DEFAULT_OBJ
+    if kw.get('skip_exc') == 'MYBASE':
+        kw['skip_exc'] = MyBase
     try:
         out = ('ret', glom(t2, s2, **kw))
     except Exception as e:
@@ -226,7 +228,8 @@ def make_site(site, raiser, thr):
 
 KW = [{}, {'default': 'D'}, {'skip_exc': KeyError}, {'default': 'D', 'skip_exc': Exception},
       {'default': 'D', 'skip_exc': (ValueError, OSError)}, {'default': 'D', 'skip_exc': ()}, {'glom_debug': True},
-      {'default': 'D', 'glom_debug': True}, {'default': 'D', 'skip_exc': GlomError}, {'default': 'D', 'skip_exc': LookupError}]
+      {'default': 'D', 'glom_debug': True}, {'default': 'D', 'skip_exc': GlomError}, {'default': 'D', 'skip_exc': LookupError},
+      {'default': 'D', 'skip_exc': 'MYBASE'}, {'default': 'D', 'skip_exc': BaseException}, {'skip_exc': 'MYBASE'}]
 DEFAULT_OBJ = ['the default object']
 
 
@@ -248,6 +251,8 @@ def fault_matrix(site: int, exc: int, kwi: int, a: int, thr: int, xs: List[int])
     kw = dict(KW[kwi])
     if 'default' in kw:
         kw['default'] = DEFAULT_OBJ
+    if kw.get('skip_exc') == 'MYBASE':
+        kw['skip_exc'] = MyBase
     try:
         out = ('ret', glom(target, spec, **kw))
     except (Exception, MyBase) as e:      # the engine's own control-flow exceptions are other BaseExceptions
@@ -261,7 +266,12 @@ def fault_matrix(site: int, exc: int, kwi: int, a: int, thr: int, xs: List[int])
     skip_exc = kw.get('skip_exc', () if default == '_MISSING' else GlomError)
     debug = kw.get('glom_debug', False)
     if not isinstance(o, Exception):
-        # BaseException subclasses pass through untouched
+        # BaseException subclasses pass through untouched -- unless the caller asked for them with skip_exc
+        if skip_exc != () and isinstance(o, skip_exc) and site not in (7, 9, 10):
+            reach('base_defaulted')
+            return (out[0] == 'ret' and out[1] is default) or fail(why='skip_exc names this BaseException: default expected', out=out, kw=kw)
+        if site in (7, 9, 10) and skip_exc != () and isinstance(o, skip_exc):
+            return True       # Check / Match / nested glom sites: only Exception subclasses are translated there; not asserted
         return (out[0] == 'exc' and out[1] is o) or fail(why='BaseException must pass through untouched', out=out)
     try:
         type('W', (type(o), GlomError), {})(*o.args)
@@ -309,7 +319,7 @@ def fault_matrix(site: int, exc: int, kwi: int, a: int, thr: int, xs: List[int])
     return True
 
 
-NOWN = 15
+NOWN = 17
 
 
 def own_failures(which: int, x: int, kwi: int) -> bool:
@@ -331,11 +341,15 @@ def own_failures(which: int, x: int, kwi: int) -> bool:
         ([x], Limit(1), BadSpec),
         (x, (M > x), MatchError),
         ((x,), Assign('0', 1), UnregisteredTarget),      # immutable container: no assign handler registered (as the suite asserts)
+        ({'rows': x}, Sum(('rows', [T])), UnregisteredTarget),   # the SUBSPEC of a fold fails: its error keeps its class
+        ({'rows': x}, Flatten(('rows', [T])), UnregisteredTarget),
     ]
     target, spec, cls = cases[which]
     kw = dict(KW[kwi])
     if 'default' in kw:
         kw['default'] = DEFAULT_OBJ
+    if kw.get('skip_exc') == 'MYBASE':
+        kw['skip_exc'] = MyBase
     default = kw.get('default', None if 'skip_exc' in kw else '_MISSING')
     skip_exc = kw.get('skip_exc', () if default == '_MISSING' else GlomError)
     out = run(lambda: glom(target, spec, **kw))
@@ -358,7 +372,7 @@ def own_failures(which: int, x: int, kwi: int) -> bool:
 def obligations(tier):
     q = tier == 'quick'
     obs = []
-    nkw = 8 if q else len(KW)
+    nkw = len(KW)
     for site in range(NSITE):
         for exc in range(NEXC):
             pre = '0 <= kwi < %d' % nkw
